@@ -14,7 +14,57 @@ func init() {
 		c.R.NotDec = "anything about histories or crashes beyond 'one synchronous journal operation'; the journal's own atomicity."
 		ruleQ1(c, "C18.Q1")
 		ruleQ2(c, "C18.Q2")
+		ruleQ3(c, "C18.Q3")
 	}
+}
+
+// ruleQ3: Get is a reader.  A Get that dirties what it read (to "make the
+// value durable", or to keep the block in the operation) commits a whole-block
+// write of a value that may be stale by then: a complete MultiPut of that key
+// that commits between Get's read and Get's commit is overwritten, durably,
+// with the old value - the acknowledged put is lost and the other keys of the
+// same multi-put keep their new values.
+func ruleQ3(c *Ctx, id string) {
+	V, P, R := c.V, c.P, c.R
+	R.Rule(id, "Get is a reader: no function reachable from kvs.Get inside go-nfsd marks a journal buffer dirty or overwrites a journal object (SetDirty, OverWrite, BnumPut, raw disk writes)", 1)
+	get := c.fn(id, "kvs.(*KVS).Get")
+	if get == nil {
+		return
+	}
+	writers := map[*ssa.Function]bool{}
+	for _, w := range []*ssa.Function{V.OverWrite, V.SetDirty, V.BnumPut} {
+		if w != nil {
+			writers[w] = true
+		}
+	}
+	reach := P.Reach([]*ssa.Function{get}, func(f *ssa.Function) bool { return !IsRepoFunc(f) })
+	n, bad := 0, ""
+	var pos ssa.Instruction
+	for f := range reach {
+		if !IsRepoFunc(f) || f.Blocks == nil {
+			continue
+		}
+		n++
+		R.Analysed[FuncName(f)] = true
+		for _, b := range f.Blocks {
+			for _, in := range b.Instrs {
+				cal := staticCallee(in)
+				if cal == nil {
+					continue
+				}
+				raw := cal.Name() == "Write" && funcPkg(cal) != nil && strings.HasSuffix(funcPkg(cal).Path(), "primitive/disk")
+				if writers[cal] || raw {
+					bad = FuncName(f) + " calls " + FuncName(cal)
+					pos = in
+				}
+			}
+		}
+	}
+	at := P.Pos(get.Pos())
+	if pos != nil {
+		at = P.Pos(pos.Pos())
+	}
+	R.Check(bad == "" && n > 0, id, "kvs.Get|does not write", at, "Get only reads through the journal", fmt.Sprintf("%d functions reachable from Get, none writes", n), bad+": Get commits a write of the value it read - a multi-put that commits in between is undone, durably, for this key only")
 }
 
 func ruleQ1(c *Ctx, id string) {
